@@ -222,6 +222,35 @@ def handlePhys (toks : List String) : String :=
       | none, some r :: _ => s!"d={toHex (fsbCanon w r.1 r.2)} n={showNulls r.2}"
       | none, _ => "PANIC"
     | _, _, _, _ => "bad-op"
+  | ["slices", _moff, mask] =>
+    match parseMask mask with
+    | some mask =>
+      -- `SlicesIterator` reads the raw value bits (a null slot keeps a set bit underneath in the harness)
+      let raw := mask.map (fun b => b != some false)
+      s!"s={showList (fun (p : Nat × Nat) => s!"{p.1}:{p.2}") (slicesOf raw)} c={trueCount mask}"
+    | none => "bad-op"
+  | ["prepmask", _moff, mask] =>
+    match parseMask mask with
+    | some mask => if mask.all (·.isSome) then "SKIP" else s!"{showBits (prepMask mask)} nulls=0"
+    | none => "bad-op"
+  | ["filternulls", var, bits, _moff, mask] =>
+    match var.toNat?, (if bits = "-" then some none else (parseBits bits).map some), parseMask mask with
+    | some var, some bits, some mask =>
+      let pr := Predicate.new useSlicesRepo mask
+      let p := if var % 2 = 0 then pr else pr.optimize
+      if p.strategy = .all ∨ p.strategy = .none then "SKIP" else
+      match filterNulls bits p with
+      | none => "-"
+      | some n => s!"{showBits n}/{nullCount n}"
+    | _, _, _ => "bad-op"
+  | ["gc", _ty, _off, rows] =>
+    match parseRows rows with
+    | some rows => showRows rows
+    | none => "bad-op"
+  | ["slice", _ty, _off, rows, a, len] =>
+    match parseRows rows, a.toNat?, len.toNat? with
+    | some rows, some a, some len => showRows ((rows.drop a).take len)
+    | _, _, _ => "bad-op"
   | ["ree", _var, ends, vals, off, len, _moff, mask] =>
     match parseList (fun x => x.toNat?) ends, parseRows vals, off.toNat?, len.toNat?, parseMask mask with
     | some ends, some vals, some off, some len, some mask =>
@@ -320,29 +349,49 @@ def parseOp (s : String) : Option (Op Row) :=
 def showBatches (bs : List (List Row)) : String :=
   if bs.isEmpty then "-" else "|".intercalate (bs.map showRows)
 
-/-- run the model over a history, recording what every `next` returned and which ops failed -/
-def runObs (c : Config) : CState Row → Nat → List (Op Row) → CState Row × List String × List Nat
-  | s, _, [] => (s, [], [])
-  | s, k, op :: ops =>
-    let r := step c s op
+/-- driver-level operation: a coalescer `Op`, the accessor query `q`, or `set_biggest_coalesce_batch_size` -/
+inductive DOp where
+  | op (o : Op Row)
+  | query
+  | setLimit (l : Option Nat)
+
+def parseDOp (s : String) : Option DOp :=
+  match s.splitOn ":" with
+  | ["q"] => some .query
+  | ["l", l] => if l = "-" then some (.setLimit none) else l.toNat?.map (fun n => .setLimit (some n))
+  | _ => (parseOp s).map .op
+
+/-- run the model over a history, recording what every `next`/`q` returned, which ops failed, and
+the batches handed out (for the conservation check); the limit may change between steps -/
+def runObs : Config → CState Row → Nat → List DOp → CState Row × List String × List Nat × List (List Row)
+  | _, s, _, [] => (s, [], [], [])
+  | c, s, k, .setLimit l :: ops => runObs { c with limit := l } s (k + 1) ops
+  | c, s, k, .query :: ops =>
+    let rest := runObs c s (k + 1) ops
+    let b := fun (x : Bool) => if x then "1" else "0"
+    let q := s!"E{b (s.bufferedRows == 0 && s.completed.isEmpty)}C{b (!s.completed.isEmpty)}B{s.bufferedRows}L{match c.limit with | some l => toString l | none => "-"}"
+    (rest.1, q :: rest.2.1, rest.2.2.1, rest.2.2.2)
+  | c, s, k, .op o :: ops =>
+    let r := step c s o
     let rest := runObs c r.1 (k + 1) ops
     match r.2 with
-    | .batch (some b) => (rest.1, showRows b :: rest.2.1, rest.2.2)
-    | .batch none => (rest.1, "_" :: rest.2.1, rest.2.2)
-    | .error => (rest.1, rest.2.1, k :: rest.2.2)
+    | .batch (some b) => (rest.1, showRows b :: rest.2.1, rest.2.2.1, b :: rest.2.2.2)
+    | .batch none => (rest.1, "_" :: rest.2.1, rest.2.2.1, rest.2.2.2)
+    | .error => (rest.1, rest.2.1, k :: rest.2.2.1, rest.2.2.2)
     | .unit => rest
 
 def nonSpecializedOf (ty : String) : Option Bool :=
   match ty with
-  | "i32" | "i64" | "sv" | "i32+i64" | "i32+sv" => some false
-  | "utf8" | "i32+utf8" | "bool" | "dict" | "dicts" | "dicti8" | "dictu8" | "dictu16" | "dictu64" | "list" | "struct" | "fsb" => some true
+  | "i32" | "i64" | "sv" | "i32+i64" | "i32+sv" | "dec" | "i32+dec" => some false
+  | "utf8" | "i32+utf8" | "bool" | "dict" | "dicts" | "dicti8" | "dictu8" | "dictu16" | "dictu64" | "dictp" | "llist" | "lv" | "map" | "ree" | "sunion" | "dunion" | "list" | "struct" | "fsb" => some true
   | _ => none
 
 def handleCoalesce (ty target limit ops : String) : String :=
   match nonSpecializedOf ty, target.toNat?, (if limit = "-" then some none else limit.toNat?.map some),
-        (if ops = "-" then some [] else (ops.splitOn ";").mapM parseOp) with
-  | some ns, some target, some limit, some ops =>
+        (if ops = "-" then some [] else (ops.splitOn ";").mapM parseDOp) with
+  | some ns, some target, some limit, some dops =>
     if target = 0 then "SKIP" else
+    let ops := dops.filterMap (fun d => match d with | .op o => some o | _ => none)
     -- a push_batch_with_indices with an out-of-range valid index panics inside take
     if ops.any (fun op => match op with
         | .pushIndices rows idx => (takeSpec rows idx).isNone
@@ -350,20 +399,20 @@ def handleCoalesce (ty target limit ops : String) : String :=
     let c : Config := { target := target, limit := limit, nonSpecialized := ns,
                         sparseDenom := Generated.C03.SPARSE_FILTER_COPY_MAX_SELECTIVITY_DENOMINATOR,
                         useSlices := useSlicesRepo }
-    let (s, outs, errs) := runObs c CState.init 0 ops
+    let (s, outs, errs, popped) := runObs c CState.init 0 dops
     if s.diverged then "DIVERGED" else
     let fin := finishBuffered s
     let tail := match fin.completed.drop s.completed.length with
       | [b] => showRows b
       | _ => "-"
     let model := s!"out={if outs.isEmpty then "-" else "|".intercalate outs} queue={showBatches s.completed} buf={s.bufferedRows} tail={tail} errs={showList toString errs}"
-    -- specification side: the emitted row sequence (always), the exact batches (no bypass limit)
-    let r := run c CState.init ops
-    let emitted := r.2 ++ r.1.completed
+    -- specification side: the emitted row sequence (always), the exact batches (never a bypass limit)
+    let emitted := popped ++ s.completed
     let selected := (ops.map Op.selected).flatten
-    if emitted.flatten ++ r.1.inProgress ≠ selected then
-      mismatch "coalesce-rows" (showRows (emitted.flatten ++ r.1.inProgress)) (showRows selected)
-    else if limit.isNone ∧ (emitted, r.1.inProgress) ≠ coalesceSpec target [] ops then
+    let neverLimited := limit.isNone ∧ dops.all (fun d => match d with | .setLimit (some _) => false | _ => true)
+    if emitted.flatten ++ s.inProgress ≠ selected then
+      mismatch "coalesce-rows" (showRows (emitted.flatten ++ s.inProgress)) (showRows selected)
+    else if neverLimited ∧ (emitted, s.inProgress) ≠ coalesceSpec target [] ops then
       mismatch "coalesce-batches" (showBatches emitted) (showBatches (coalesceSpec target [] ops).1)
     else model
   | _, _, _, _ => "bad-op"
